@@ -2,6 +2,7 @@ from vf import Query
 
 SRC = ["src/smpi/mpi/smpi_datatype.cpp", "src/smpi/mpi/smpi_datatype_derived.cpp"]
 CTORS = ["contiguous", "vector", "hvector", "indexed", "hindexed", "struct", "resized"]
+THOROUGH_MAX = 160  # all quick shapes + a fixed strided sample of the other thorough shapes (lib/vf.py)
 META = {
     "bounds": "constructors contiguous/vector/hvector/indexed/hindexed/struct/resized with symbolic counts 0..6, block lengths 1..6, strides 0..64, displacements 0..64, "
               "1..3 blocks (quick: <=2) for indexed/hindexed/struct; old type either predefined-like (extent = size 1..8, lb 0) or derived with symbolic size 1..8, "
